@@ -38,8 +38,9 @@ def main():
     shutil.rmtree(root, ignore_errors=True)
     os.makedirs(root)
     ig = shutil.ignore_patterns("__pycache__")
-    shutil.copytree("/repo/simple_ddl_parser", root + "/simple_ddl_parser", ignore=ig)
-    shutil.copytree("/repo/tests", root + "/tests", ignore=ig)
+    REPO = os.environ.get("AUDIT_REPO", "/repo")
+    shutil.copytree(REPO + "/simple_ddl_parser", root + "/simple_ddl_parser", ignore=ig)
+    shutil.copytree(REPO + "/tests", root + "/tests", ignore=ig)
     env = dict(os.environ, PYTHONPATH=root, PYTHONDONTWRITEBYTECODE="1", PYTHONHASHSEED="0")
     meta = {"id": sid, "kind": "neutral", "base_commit": sh(["git", "-C", "/repo", "rev-parse", "HEAD"]).stdout.strip(),
             "audited_at": time.strftime("%Y-%m-%dT%H:%M:%SZ", time.gmtime())}
